@@ -261,7 +261,7 @@ fn check() {
             chk.violation("auth.cache", class, format!("history {:?}: {detail}", names), json!({"history": names, "cache_timeout_s": 1}));
         }
     }
-    if n < 500 || hits < 100 || calls < 500 || ambiguous * 4 > n {
+    if chk.violation_count() == 0 && (n < 500 || hits < 100 || calls < 500 || ambiguous * 4 > n) {
         machinery(format!("vacuous or too noisy: histories={n} cache-hits={hits} backend-calls={calls} ambiguous={ambiguous}"));
     }
     let coverage = json!({
